@@ -1,7 +1,9 @@
-"""Fail-closed translator  Python `ast`  ->  Gallina  for numpy 3-vector code (shared component; first user: C08).
+"""Fail-closed translator  Python `ast`  ->  Gallina  for numpy 3-vector code (shared component; users: C08, C18, C09, C17).
 
     tr = Translator({"classy_blocks.util.functions": "/repo/src/classy_blocks/util/functions.py", ...})
     tr.entry("classy_blocks.util.functions", "unit_vector", {"vect": "vec"})        # -> "src_unit_vector"
+    tr.entry_method(module, "Point", "scale", {"ratio": "real", "origin": None}, attrs={"position": "vec"}, result="position")
+    tr.entry_closure(module, "LineClamp", "__init__", "function", {...}, {"t": ["real"]}, passed_as="function")
     text = tr.source_text("...")                                                      # the text of coq/Gen/<ID>/Source.v
 
 Every python function becomes ONE Gallina definition per *specialisation* (see `int`, `bool` below)
@@ -54,7 +56,35 @@ THE READING (the trusted part; the sampled interval correspondence of the proper
                 `warnings.warn(...)` (no value; a no-op unless warnings are turned into errors)
   parameters    plain positional, defaults only constants; keyword arguments by name
   not modelled  nan / inf propagation after a failed guard (see `None` above); exceptions inside numpy for wrong
-                shapes / dtypes (inputs are assumed to be what the signature table says)
+                shapes / dtypes (inputs are assumed to be what the signature table says); ALIASING of arrays (x += e and
+                self.a += e are read as re-binding the name / attribute to the new value)
+
+EXTENSIONS (C18, C09, C17):
+  None          `None` is static; `x is None` / `x is not None` is decided at translation time by the declared kind of x (an
+                argument declared a vector is not None); a parameter declared None in the signature table gives a
+                specialisation of its own (`origin=None`); defaults may be None
+  3 x 3 arrays  np.array([[a, b, c], [d, e, f], [g, h, i]]) of reals: `s_mat`, the triple of its rows;  v.dot(M), np.dot(v, M):
+                the row vector times the matrix (`s_vM`);  np.dot(M, v): `s_Mv`;  M.T: `s_MT`;  np.copy: identity
+  methods       `entry_method(module, Class, method, sig, attrs, result)`: the method as called on an instance of EXACTLY that
+                class; `self` is an object whose DECLARED attributes ({dotted name: kind}, e.g. {"position": "vec"},
+                {"mesh.vertices": ("objects", "position")}) are parameters of the Gallina definition; any other attribute
+                is a GenError.  `self.a = e`, `self.a op= e` (declared attribute, same kind) re-bind it; `return self` at
+                the end of such a method returns the value of the attribute `result`.  `self.m(...)`: the `m` of the
+                class body, else of its single base class (a class of a translated module; `tie_to_runtime` compares
+                with `__bases__`); the callee may read, not assign, the attributes.  An (N, 3) array attribute may be
+                declared "vec": the method is then read ROW-WISE (the caller's responsibility: numpy broadcasting)
+  filter loops  `ACC = set()` ... `for X in LIST: if TEST: ACC.add(X)` with LIST a declared list of objects that are
+                represented by one vec attribute ("objects", "position"): ACC becomes `s_filter (fun x => TEST) LIST`, the
+                sub-list selected by TEST (None if TEST has no value for some element); nothing else may be in the loop
+  closures      `entry_closure(module, Class, method, closure | "<lambda>", sig, closure_sig, passed_as)`: the nested `def`
+                (or the lambda handed to `super().method(...)`) as a function of the method's parameters and its own
+                (a sequence parameter of known length: ["real", "real"]): the statements of the method before it, then its
+                body.  Checked: no later statement re-binds a name it reads; it is what `super().method(...)` (called
+                exactly once, as a statement) receives for the parameter `passed_as` of the base class's method
+  opaque calls  `Translator(..., opaque={dotted call: "vec" | "real" | ("fun", [kinds], kind)})`: a value the translation does
+                not look into is an INPUT of the entry function: np.random.random(3) -> a fresh vec parameter per call;
+                ("fun", ...) -> ONE parameter of function type (f.rotate: vec -> R -> vec -> vec -> vec), i.e. the callee
+                is read as a total function of the values of its arguments.  Entry functions only
 
 `tie_to_runtime()` checks that the functions the library calls ARE the parsed ones (same file, first line) and that the
 import aliases (`np`, `f`, `constants`, ...) name the modules the translator assumed.
@@ -72,8 +102,13 @@ FRAGMENT = ("real scalars and Base/Vec3 vectors; + - * (vec+-vec, vec*real), gua
             "(identity), np.dot/.dot, np.cross, scipy.linalg.norm/np.linalg.norm (vec: norm, real: Rabs), np.linspace with static num, "
             "constant indexing/slicing and list comprehensions over static lists, comparisons and chains, and/or/not, constants.TOL, "
             "decimal reading of float literals, assignments and augmented assignments to one name, if/elif/else, return, raise (None), "
-            "warnings.warn (no-op), calls of functions of the same run specialised on literal int/bool arguments (self-calls unrolled, "
-            "recursion rejected), constant defaults")
+            "warnings.warn (no-op), calls of functions of the same run specialised on literal int/bool/None arguments (self-calls "
+            "unrolled, recursion rejected), constant defaults; x is None decided by the declared kind of x; 3 x 3 array literals "
+            "(rows), v.dot(M) / np.dot(v, M) / np.dot(M, v) / M.T, np.copy (identity); methods on an object whose declared "
+            "attributes are inputs (self.a = e re-binds, return self = the declared result attribute, self.m() through single "
+            "inheritance); the filter loop `acc = set(); for x in l: if TEST: acc.add(x)` (sub-list selected by TEST); closures of "
+            "a constructor (statements before the def / lambda, then its body; free variables not re-bound later; passed to "
+            "super().__init__); declared opaque calls as inputs (np.random.random(3): a vector; f.rotate: a function)")
 
 PRELUDE = r"""From Coq Require Import Reals List Bool.
 From CB Require Import Base.Vec3.
@@ -85,13 +120,32 @@ Definition s_lt (a b : R) : bool := if Rlt_dec a b then true else false.
 Definition s_le (a b : R) : bool := if Rle_dec a b then true else false.
 Definition s_eq (a b : R) : bool := if Req_EM_T a b then true else false.
 Definition s_clip (x lo hi : R) : R := Rmin (Rmax x lo) hi.
+(* a 3 x 3 array: its rows;  v . M  (np.dot(v, M), v.dot(M)),  M . v,  M.T *)
+Definition s_mat : Type := (vec * vec * vec)%type.
+Definition s_vM (v : vec) (m : s_mat) : vec :=
+  let '(r0, r1, r2) := m in
+  (vx v * vx r0 + vy v * vx r1 + vz v * vx r2, vx v * vy r0 + vy v * vy r1 + vz v * vy r2, vx v * vz r0 + vy v * vz r1 + vz v * vz r2).
+Definition s_Mv (m : s_mat) (v : vec) : vec := let '(r0, r1, r2) := m in (dot r0 v, dot r1 v, dot r2 v).
+Definition s_MT (m : s_mat) : s_mat :=
+  let '(r0, r1, r2) := m in ((vx r0, vx r1, vx r2), (vy r0, vy r1, vy r2), (vz r0, vz r1, vz r2)).
+(* `acc = set(); for x in l: if test(x): acc.add(x)`: the sub-list of l selected by the test (no value if the test has none) *)
+Fixpoint s_filter {A : Type} (f : A -> option bool) (l : list A) : option (list A) :=
+  match l with
+  | [] => Some []
+  | x :: r => match f x with
+              | None => None
+              | Some b => match s_filter f r with None => None | Some r' => Some (if b then x :: r' else r') end
+              end
+  end.
 """
 
-PRIMS_UNFOLD = "s_lt s_le s_eq negb andb orb nth"
+PRIMS_UNFOLD = "s_lt s_le s_eq negb andb orb nth s_vM s_Mv s_MT"
 
 NUMPY_SCALAR_FUNS = {"sin": "sin", "cos": "cos"}
-TYNAMES = {"vec": "V", "real": "R", "bool": "B"}
-COQTY = {"V": "vec", "R": "R", "B": "bool"}
+TYNAMES = {"vec": "V", "real": "R", "bool": "B", "mat": "M"}
+COQTY = {"V": "vec", "R": "R", "B": "bool", "M": "s_mat", "LD": "(list vec)"}
+KINDS = {"V": "vector", "B": "truth value", "L": "list", "M": "3 x 3 array", "N": "None", "O": "object", "S": "set",
+         "LD": "list of objects"}
 
 
 def _err(node, msg, mod=None):
@@ -100,15 +154,25 @@ def _err(node, msg, mod=None):
 
 
 class Ex:
-    """a translated expression: Gallina text, type ('R' real | 'V' vec | 'B' bool | 'I' static int | 'L' static list),
-    evaluation prelude (guards / binds / lets, in evaluation order), static value (int, bool, Fraction, list of Ex)"""
+    """a translated expression: Gallina text, type ('R' real | 'V' vec | 'M' 3 x 3 array | 'B' bool | 'I' static int |
+    'L' static list | 'N' None | 'O' object: static dict(cls=(module, class) | None, attrs={dotted attribute: Ex}, mutable) |
+    'LD' list of objects that are represented by their one vec attribute: static = that attribute's name | 'S' set under
+    construction), evaluation prelude (guards / binds / lets, in evaluation order), static value"""
     __slots__ = ("text", "ty", "pre", "static")
 
     def __init__(self, text, ty, pre=None, static=None):
         self.text, self.ty, self.pre, self.static = text, ty, list(pre or []), static
 
     def is_static(self):
-        return self.static is not None and self.ty in ("I", "B")
+        return (self.static is not None and self.ty in ("I", "B")) or self.ty == "N"
+
+
+def obj(cls, attrs, mutable=False):
+    return Ex(None, "O", static=dict(cls=cls, attrs=dict(attrs), mutable=mutable))
+
+
+def flat_name(s):
+    return s.replace(".", "_")
 
 
 def lit_R(fr):
@@ -151,6 +215,7 @@ class Module:
         self.imported = set()  # every dotted module named by an `import a.b.c`
         self.funcs = {}
         self.other = {}     # module-level names bound by something else (class, assignment): not translatable
+        self.classes = {}   # class name -> ClassDef (methods are translated through Translator.entry_method only)
         for node in self.tree.body:
             if isinstance(node, ast.Import):
                 for a in node.names:
@@ -170,6 +235,7 @@ class Module:
                 self._bind(node.name, ("def", node), node)
             elif isinstance(node, ast.ClassDef):
                 self._bind(node.name, ("other", node), node)
+                self.classes[node.name] = node
             elif isinstance(node, (ast.Assign, ast.AnnAssign, ast.AugAssign)):
                 for n in ast.walk(node):
                     if isinstance(n, ast.Name) and isinstance(n.ctx, ast.Store):
@@ -196,6 +262,10 @@ class Fn:
         self.mod, self.node, self.key, self.coq = mod, node, key, coq
         self.rty = None
         self.fresh = 0
+        self.extra = []        # binders of opaque inputs (np.random.random(3), f.rotate ...): [(coq name, Gallina type)]
+        self.mutates = False   # assigns an attribute of an object parameter
+        self.result_attr = None  # `return self` returns this attribute of self (entry methods only)
+        self.rt = (mod.name, node.name, node.lineno)  # run-time tie: module, qualified name, first line
 
     def new(self, stem="t"):
         self.fresh += 1
@@ -203,10 +273,14 @@ class Fn:
 
 
 class Translator:
-    def __init__(self, modules, constants_module="classy_blocks.util.constants"):
-        """modules: {dotted module name: path of its source file}"""
+    def __init__(self, modules, constants_module="classy_blocks.util.constants", opaque=None):
+        """modules: {dotted module name: path of its source file};
+        opaque: {dotted call: "vec" | "real"} - calls whose value is an INPUT of the translated entry function (an extra
+        parameter of the Gallina definition), e.g. {"numpy.random.random": "vec"} for `np.random.random(3)`"""
         self.modules = {name: Module(name, path) for name, path in modules.items()}
         self.constants_module = constants_module
+        self.opaque = dict(opaque or {})
+        self.bases_used = set()  # (module, class, base module, base class): single inheritance walked for a method
         self.declared = {}   # key -> coq name (entry points)
         self.done = {}       # key -> (coq name, rty, [dynamic param names], Fn)
         self.stack = []
@@ -227,37 +301,236 @@ class Translator:
         if node is None:
             raise GenError("%s has no top-level function %s" % (mod.path, fname))
         names, _defaults = self.check_signature(mod, node)
+        args = self.typed_args(module, fname, names, sig)
+        return self.declare(mod, fname, args, node, coq or "src_" + fname)
+
+    def typed_args(self, module, fname, names, sig, selfarg=None):
+        """the arguments of an entry point, from the signature table"""
+        names = list(names)
+        args = []
+        if selfarg is not None:
+            if not names:
+                raise GenError("%s.%s has no self parameter" % (module, fname))
+            args.append(selfarg)
+            names = names[1:]
         if sorted(names) != sorted(sig):
             raise GenError("%s.%s has parameters %r, the signature table says %r" % (module, fname, names, sorted(sig)))
-        args = []
         for p in names:
-            t = sig[p]
-            if isinstance(t, bool):
-                args.append(Ex(None, "B", static=t))
-            elif isinstance(t, int):
-                args.append(Ex(None, "I", static=t))
-            elif t in TYNAMES:
-                args.append(Ex("v_" + p, TYNAMES[t]))
-            else:
-                raise GenError("signature table: unknown type %r for %s.%s" % (t, fname, p))
+            args.append(self.typed_value("v_" + p, sig[p], "%s.%s" % (fname, p)))
+        return args
+
+    def typed_value(self, name, t, what):
+        if t is None:
+            return Ex(None, "N", static=True)
+        if isinstance(t, bool):
+            return Ex(None, "B", static=t)
+        if isinstance(t, int):
+            return Ex(None, "I", static=t)
+        if isinstance(t, list) and t and all(x == "real" for x in t):  # a sequence of numbers of known length (params of a clamp)
+            return Ex(None, "L", static=[Ex("%s_%d" % (name, i), "R") for i in range(len(t))])
+        if isinstance(t, tuple) and len(t) == 2 and t[0] == "objects":  # a list of objects represented by their one vec attribute
+            return Ex(name, "LD", static=t[1])
+        if isinstance(t, str) and t in TYNAMES:
+            return Ex(name, TYNAMES[t])
+        raise GenError("signature table: unknown type %r for %s" % (t, what))
+
+    def declare(self, mod, fname, args, node, coq):
         key = self.key_of(mod, fname, args)
-        coq = coq or "src_" + fname
         if key in self.declared and self.declared[key] != coq:
-            raise GenError("%s.%s declared twice" % (module, fname))
+            raise GenError("%s.%s declared twice" % (mod.name, fname))
         self.declared[key] = coq
-        return self.function(mod, fname, args, node)[0]
+        return self.function(mod, fname, args, node, node=node)[0]
+
+    # -- methods of classes: `self` is an object whose declared attributes are the inputs
+    def find_method(self, mod, cls, meth, at=None):
+        """the function `meth` an instance of exactly `cls` (of module `mod`) would call: the class body, else its single
+        base class (which must be a class of a translated module), and so on -> (module, class name, FunctionDef)"""
+        seen = set()
+        while True:
+            cnode = mod.classes.get(cls)
+            if cnode is None or (mod.name, cls) in seen:
+                raise GenError("%s has no class %s" % (mod.path, cls))
+            seen.add((mod.name, cls))
+            if cnode.decorator_list or cnode.keywords:
+                _err(cnode, "class %s is decorated / has a metaclass" % cls, mod.short)
+            found, bound = [], False
+            for st in cnode.body:
+                if isinstance(st, ast.FunctionDef) and st.name == meth:
+                    found.append(st)
+                elif not isinstance(st, (ast.FunctionDef, ast.AsyncFunctionDef)):
+                    for x in ast.walk(st):
+                        if isinstance(x, ast.Name) and isinstance(x.ctx, ast.Store) and x.id == meth:
+                            bound = True
+                elif st.name == meth:
+                    bound = True
+            if len(found) > 1 or (found and bound) or (bound and not found):
+                _err(cnode, "class %s binds %s more than once / not by a plain def" % (cls, meth), mod.short)
+            if found:
+                return mod, cls, found[0]
+            if len(cnode.bases) != 1:
+                _err(cnode, "class %s has no method %s and not exactly one base class" % (cls, meth), mod.short)
+            b = cnode.bases[0]
+            if isinstance(b, ast.Name) and b.id in mod.classes:
+                nxt = (mod, b.id)
+            else:
+                d = self.dotted(b, mod, {})
+                m2, _, c2 = (d or "").rpartition(".")
+                if m2 not in self.modules:
+                    _err(cnode, "class %s has no method %s; its base `%s` is outside the translated modules" % (cls, meth, ast.unparse(b)), mod.short)
+                nxt = (self.modules[m2], c2)
+            self.bases_used.add((mod.name, cls, nxt[0].name, nxt[1]))
+            mod, cls = nxt
+
+    def self_object(self, module, cls, attrs, mutable):
+        a = {}
+        for k, t in (attrs or {}).items():
+            e = self.typed_value("v_self_" + flat_name(k), t, "%s.self.%s" % (cls, k))
+            if e.ty not in ("R", "V", "B", "M", "LD"):
+                raise GenError("attribute %s.%s: type %r is not in the fragment" % (cls, k, t))
+            a[k] = e
+        return obj((module, cls), a, mutable)
+
+    def entry_method(self, module, cls, meth, sig, attrs=None, result=None, coq=None):
+        """translate the method `meth` as called on an instance of exactly `cls` whose attributes `attrs` ({dotted name:
+        type}) are inputs.  `result`: the attribute whose value on return is the value of a method that ends with
+        `return self` (Point.translate ...: the new position)."""
+        mod = self.modules.get(module)
+        if mod is None:
+            raise GenError("module %s is not among the translated modules" % module)
+        mod2, cls2, node = self.find_method(mod, cls, meth)
+        names, _d = self.check_signature(mod2, node)
+        if result is not None and result not in (attrs or {}):
+            raise GenError("%s.%s: the result attribute %r is not declared" % (cls, meth, result))
+        selfarg = self.self_object(module, cls, attrs, True)
+        args = self.typed_args(module, "%s.%s" % (cls, meth), names, sig, selfarg)
+        self._result_for = result
+        try:
+            return self.declare(mod2, "%s.%s" % (cls2, meth), args, node, coq or "src_%s_%s" % (cls, meth))
+        finally:
+            self._result_for = None
+
+    def entry_closure(self, module, cls, meth, closure, sig, closure_sig, passed_as=None, coq=None):
+        """translate the nested function `closure` of `cls.meth` - a top-level `def` of the method body, or (closure =
+        "<lambda>") the lambda expression handed to `super().<meth>(...)` - as a function of the method's parameters and
+        its own: the statements of the method BEFORE the def (before the super() call), then the body of the def.
+        Checked: no statement after it re-binds a name the closure reads (python closures see later assignments), and -
+        `passed_as` = (parameter name of the base class's method of the same name) - the closure is what
+        `super().<meth>(...)`, called exactly once as a statement of its own, receives for that parameter."""
+        mod = self.modules.get(module)
+        if mod is None:
+            raise GenError("module %s is not among the translated modules" % module)
+        mod2, cls2, node = self.find_method(mod, cls, meth)
+        if (mod2, cls2) != (mod, cls):
+            raise GenError("%s.%s is inherited" % (cls, meth))
+        body = list(node.body)
+        got, kcall = None, None
+        if passed_as is not None:
+            cnode = mod.classes[cls]
+            if len(cnode.bases) != 1:
+                _err(cnode, "class %s has not exactly one base class" % cls, mod.short)
+            b = cnode.bases[0]
+            if isinstance(b, ast.Name) and b.id in mod.classes:
+                bm, bc = mod, b.id
+            else:
+                d = self.dotted(b, mod, {})
+                m2, _, bc = (d or "").rpartition(".")
+                if m2 not in self.modules:
+                    _err(cnode, "the base `%s` of %s is outside the translated modules" % (ast.unparse(b), cls), mod.short)
+                bm = self.modules[m2]
+            self.bases_used.add((mod.name, cls, bm.name, bc))
+            bmod, bcls, bnode = self.find_method(bm, bc, meth)
+            bnames = [a.arg for a in bnode.args.args][1:]
+            if passed_as not in bnames or bnode.args.vararg or bnode.args.kwarg or bnode.args.posonlyargs:
+                _err(bnode, "%s.%s has no plain parameter %r" % (bcls, meth, passed_as), bmod.short)
+            pos = bnames.index(passed_as)
+            calls = []
+            for k, st in enumerate(body):
+                for x in ast.walk(st):
+                    if isinstance(x, ast.Call) and isinstance(x.func, ast.Attribute) and x.func.attr == meth \
+                            and isinstance(x.func.value, ast.Call) and isinstance(x.func.value.func, ast.Name) \
+                            and x.func.value.func.id == "super" and not x.func.value.args and not x.func.value.keywords:
+                        calls.append((k, st, x))
+            if len(calls) != 1 or not isinstance(calls[0][1], ast.Expr) or calls[0][1].value is not calls[0][2]:
+                _err(node, "%s.%s does not call super().%s(...) exactly once, as a statement of its own" % (cls, meth, meth), mod.short)
+            kcall, _st, c = calls[0]
+            if any(isinstance(a, ast.Starred) for a in c.args) or any(k.arg is None for k in c.keywords):
+                _err(c, "starred arguments in super().%s(...)" % meth, mod.short)
+            got = c.args[pos] if pos < len(c.args) else next((k.value for k in c.keywords if k.arg == passed_as), None)
+        if closure == "<lambda>":
+            if not isinstance(got, ast.Lambda):
+                _err(node, "super().%s(...) does not receive a lambda expression as %r" % (meth, passed_as), mod.short)
+            ca = got.args
+            cbody = [ast.copy_location(ast.Return(value=got.body), got)]
+            prefix, suffix = body[:kcall], body[kcall + 1:]
+            where = got
+        else:
+            idx = [i for i, st in enumerate(body) if isinstance(st, ast.FunctionDef) and st.name == closure]
+            if len(idx) != 1:
+                _err(node, "%s.%s does not define %s exactly once at the top level of its body" % (cls, meth, closure), mod.short)
+            cdef = body[idx[0]]
+            if cdef.decorator_list:
+                _err(cdef, "the closure %s is decorated" % closure, mod.short)
+            ca, cbody, where = cdef.args, list(cdef.body), cdef
+            prefix, suffix = body[:idx[0]], body[idx[0] + 1:]
+            if passed_as is not None and not (kcall > idx[0] and isinstance(got, ast.Name) and got.id == closure):
+                _err(node, "super().%s(...) does not receive the closure %s as %r (after its definition)" % (meth, closure, passed_as), mod.short)
+        if ca.posonlyargs or ca.kwonlyargs or ca.vararg or ca.kwarg or ca.defaults or ca.kw_defaults:
+            _err(where, "the closure %s has other than plain parameters" % closure, mod.short)
+        cnames = [a.arg for a in ca.args]
+        reads = {x.id for st in cbody for x in ast.walk(st) if isinstance(x, ast.Name)} - set(cnames)
+        bound = reads | ({closure} if closure != "<lambda>" else set())
+        for st in suffix:
+            for x in ast.walk(st):
+                if isinstance(x, ast.Name) and isinstance(x.ctx, (ast.Store, ast.Del)) and x.id in bound:
+                    _err(x, "%r, which the closure %s reads, is re-bound after its definition" % (x.id, closure), mod.short)
+                if isinstance(x, (ast.Global, ast.Nonlocal)):
+                    _err(x, "global / nonlocal after the closure", mod.short)
+                if isinstance(x, (ast.FunctionDef, ast.ClassDef)) and x.name in bound:
+                    _err(x, "%r is re-bound after the definition of the closure" % x.name, mod.short)
+        if closure != "<lambda>":
+            for st in prefix:
+                for x in ast.walk(st):
+                    if isinstance(x, ast.Name) and x.id == closure:
+                        _err(x, "%r is used before the closure is defined" % closure, mod.short)
+        syn = ast.FunctionDef(name=node.name, args=ast.arguments(posonlyargs=[], args=list(node.args.args) + list(ca.args), vararg=node.args.vararg,
+                                                             kwonlyargs=list(node.args.kwonlyargs), kw_defaults=list(node.args.kw_defaults),
+                                                             kwarg=node.args.kwarg, defaults=[]),
+                              body=list(prefix) + cbody, decorator_list=list(node.decorator_list), returns=None, type_comment=None)
+        ast.copy_location(syn, node)
+        names, _d = self.check_signature(mod, syn)
+        full = dict(sig)
+        for k, v in closure_sig.items():
+            if k in full:
+                raise GenError("closure parameter %r shadows a parameter of %s.%s" % (k, cls, meth))
+            full[k] = v
+        selfarg = self.self_object(module, cls, {}, False)
+        cname = "lambda" if closure == "<lambda>" else closure
+        qual = "%s.%s.%s" % (cls, meth, cname)
+        args = self.typed_args(module, qual, names, full, selfarg)
+        name = self.declare(mod, qual, args, syn, coq or "src_%s_%s" % (cls, cname))
+        key = self.key_of(mod, qual, args)
+        self.done[key][3].rt = (mod.name, "%s.%s" % (cls, meth), node.lineno)
+        return name
 
     def key_of(self, mod, fname, args):
         ks = []
         for a in args:
             if a.ty in ("I", "B") and a.static is not None:
                 ks.append((a.ty, a.static))
-            elif a.ty in ("R", "V", "B"):
+            elif a.ty == "N":
+                ks.append(("N", None))
+            elif a.ty in ("R", "V", "B", "M"):
                 ks.append(a.ty)
+            elif a.ty == "LD":
+                ks.append(("LD", a.static))
+            elif a.ty == "O":
+                ks.append(("O", a.static["cls"], tuple(sorted((k, e.ty) for k, e in a.static["attrs"].items()))))
+            elif a.ty == "L" and a.static and all(x.ty == "R" and x.text for x in a.static):
+                ks.append(("L", len(a.static)))
             elif a.ty == "I":
                 raise GenError("int-valued argument that is not static")
             else:
-                raise GenError("%s.%s is called with a list argument" % (mod.name, fname))
+                raise GenError("%s.%s is called with a %s argument" % (mod.name, fname, KINDS.get(a.ty, a.ty)))
         return (mod.name, fname, tuple(ks))
 
     def check_signature(self, mod, node):
@@ -271,8 +544,8 @@ class Translator:
             _err(node, "function %s: duplicate parameter" % node.name, mod.short)
         defaults = {}
         for p, d in zip(names[len(names) - len(a.defaults):], a.defaults):
-            if not (isinstance(d, ast.Constant) and isinstance(d.value, (bool, int, float))):
-                _err(d, "default of %s.%s is not a number / truth value literal" % (node.name, p), mod.short)
+            if not (isinstance(d, ast.Constant) and (d.value is None or isinstance(d.value, (bool, int, float)))):
+                _err(d, "default of %s.%s is not a number / truth value literal / None" % (node.name, p), mod.short)
             defaults[p] = d
         for n in ast.walk(node):
             if isinstance(n, (ast.Global, ast.Nonlocal, ast.Yield, ast.YieldFrom, ast.Await, ast.Lambda, ast.NamedExpr)):
@@ -281,32 +554,72 @@ class Translator:
                 _err(n, "nested definition in function %s" % node.name, mod.short)
         return names, defaults
 
-    def function(self, mod, fname, args, at):
+    @staticmethod
+    def dyn_of(args):
+        """the Gallina arguments of a call: the non-static arguments; an object stands for its declared attributes (in the
+        order of declaration), a sequence of numbers for its elements"""
+        out = []
+        for a in args:
+            if a.is_static():
+                continue
+            if a.ty == "O":
+                out += list(a.static["attrs"].values())
+            elif a.ty == "L":
+                out += list(a.static)
+            else:
+                out.append(a)
+        return out
+
+    def function(self, mod, fname, args, at, node=None):
         """-> (coq name, return type, dynamic argument Exs) of the specialisation of mod.fname for these arguments"""
         key = self.key_of(mod, fname, args)
-        dyn = [a for a in args if not a.is_static()]
+        dyn = self.dyn_of(args)
         if key in self.done:
-            coq, rty = self.done[key][0], self.done[key][1]
+            coq, rty, fn0 = self.done[key][0], self.done[key][1], self.done[key][3]
+            if self.stack and (fn0.extra or fn0.mutates):
+                _err(at, "%s takes opaque inputs / assigns attributes of its object: it cannot be called from translated code" % fname, mod.short)
             return coq, rty, dyn
         if key in self.stack:
             _err(at, "recursion: %s.%s calls itself with the same kinds of arguments" % (mod.name, fname), mod.short)
-        node = mod.funcs[fname]
+        if node is None:
+            node = mod.funcs[fname]
         names, _d = self.check_signature(mod, node)
         if key in self.declared:
             coq = self.declared[key]
         else:
-            coq = "src_%s__%s" % (fname, "_".join((k.lower() if isinstance(k, str) else str(k[1])) for k in key[2]))
+            def part(k):
+                if isinstance(k, str):
+                    return k.lower()
+                return {"N": "None", "LD": "ld", "O": "o"}.get(k[0]) or ("l%d" % k[1] if k[0] == "L" else str(k[1]))
+            coq = "src_%s__%s" % (flat_name(fname), "_".join(part(k) for k in key[2]))
         if coq in self.names or any(coq == self.declared[k] and k != key for k in self.declared):
             _err(at, "two specialisations would both be called %s" % coq, mod.short)
         fn = Fn(mod, node, key, coq)
+        fn.rt = (mod.name, fname, node.lineno)
+        if not self.stack:
+            fn.result_attr = getattr(self, "_result_for", None)
         env = {}
         binders, special = [], []
         for p, a in zip(names, args):
             if a.is_static():
                 env[p] = Ex(None, a.ty, static=a.static)
-                special.append("%s=%r" % (p, a.static))
+                special.append("%s=%r" % (p, None if a.ty == "N" else a.static))
+            elif a.ty == "O":
+                attrs = {}
+                for k, e in a.static["attrs"].items():
+                    v = "v_%s_%s" % (p, flat_name(k))
+                    attrs[k] = Ex(v, e.ty, static=e.static)
+                    binders.append("(%s : %s)" % (v, COQTY[e.ty]))
+                env[p] = obj(a.static["cls"], attrs, a.static["mutable"])
+            elif a.ty == "L":
+                elems = []
+                for i, e in enumerate(a.static):
+                    v = "v_%s_%d" % (p, i)
+                    elems.append(Ex(v, e.ty))
+                    binders.append("(%s : %s)" % (v, COQTY[e.ty]))
+                env[p] = Ex(None, "L", static=elems)
             else:
-                env[p] = Ex("v_" + p, a.ty)
+                env[p] = Ex("v_" + p, a.ty, static=a.static if a.ty == "LD" else None)
                 binders.append("(v_%s : %s)" % (p, COQTY[a.ty]))
         self.stack.append(key)
         try:
@@ -315,8 +628,14 @@ class Translator:
             self.stack.pop()
         if fn.rty is None:
             _err(node, "function %s never returns a value" % fname, mod.short)
+        if self.stack and (fn.extra or fn.mutates):
+            _err(at, "%s takes opaque inputs / assigns attributes of its object: it cannot be called from translated code" % fname, mod.short)
+        for (v, t) in fn.extra:
+            binders.append("(%s : %s)" % (v, t))
         rtxt = self.rty_text(fn.rty)
         note = (" [specialised: %s]" % ", ".join(special)) if special else ""
+        if fn.extra:
+            note += " [opaque inputs: %s]" % ", ".join(v for v, _t in fn.extra)
         self.out.append("(* %s.%s, line %d%s *)\nDefinition %s (tol : R) %s : option %s :=\n  %s.\n" % (
             mod.name, fname, node.lineno, note, coq, " ".join(binders), rtxt, body))
         self.names.append(coq)
@@ -328,6 +647,8 @@ class Translator:
     def rty_text(self, rty):
         if rty[0] == "L":
             return "(list %s)" % COQTY[rty[2]]
+        if rty[0] not in COQTY:
+            raise GenError("a %s is returned" % KINDS.get(rty[0], rty[0]))
         return COQTY[rty[0]]
 
     # ------------------------------------------------------------------------------------------ statements
@@ -355,15 +676,37 @@ class Translator:
                 return self.block(rest, env, fn, ind)  # no value
             _err(s, "expression statement `%s` is outside the fragment" % ast.unparse(v)[:80], mod.short)
         if isinstance(s, ast.AugAssign):
-            if not isinstance(s.target, ast.Name):
-                _err(s, "augmented assignment to something other than one name", mod.short)
-            load = ast.copy_location(ast.Name(id=s.target.id, ctx=ast.Load()), s)
+            if isinstance(s.target, ast.Name):
+                load = ast.copy_location(ast.Name(id=s.target.id, ctx=ast.Load()), s)
+            elif isinstance(s.target, ast.Attribute):
+                load = ast.copy_location(ast.Attribute(value=s.target.value, attr=s.target.attr, ctx=ast.Load()), s)
+            else:
+                _err(s, "augmented assignment to something other than one name / attribute", mod.short)
             s = ast.copy_location(ast.Assign(targets=[s.target], value=ast.copy_location(
                 ast.BinOp(left=load, op=s.op, right=s.value), s)), s)
         if isinstance(s, ast.AnnAssign):
             if s.value is None or not isinstance(s.target, ast.Name) or not s.simple:
                 _err(s, "annotated assignment outside the fragment", mod.short)
             s = ast.copy_location(ast.Assign(targets=[s.target], value=s.value), s)
+        if isinstance(s, ast.Assign) and len(s.targets) == 1 and isinstance(s.targets[0], ast.Attribute):
+            # self.attr = e: the declared attribute of a mutable object parameter takes a new value (of the same type)
+            base, key = self.obj_attr(s.targets[0], env)
+            if base is None:
+                _err(s, "assignment to `%s`, which is not a declared attribute of an object parameter" % ast.unparse(s.targets[0])[:60], mod.short)
+            o = env[base]
+            if not o.static["mutable"] or key not in o.static["attrs"]:
+                _err(s, "assignment to `%s`: not a declared attribute of the object the method is called on" % ast.unparse(s.targets[0])[:60], mod.short)
+            old = o.static["attrs"][key]
+            e = self.expr(s.value, env, fn)
+            if e.ty != old.ty or e.ty not in ("R", "V", "M", "B") or e.is_static():
+                _err(s, "`%s` changes its type (%s -> %s)" % (ast.unparse(s.targets[0])[:60], old.ty, e.ty), mod.short)
+            var = "v_%s_%s_%s" % (base, flat_name(key), fn.new("n"))
+            attrs = dict(o.static["attrs"])
+            attrs[key] = Ex(var, e.ty)
+            env2 = dict(env)
+            env2[base] = obj(o.static["cls"], attrs, True)
+            fn.mutates = True
+            return wrap(list(e.pre) + [("let", var, e.text)], self.block(rest, env2, fn, ind), ind)
         if isinstance(s, ast.Assign):
             if len(s.targets) != 1 or not isinstance(s.targets[0], ast.Name):
                 _err(s, "assignment to something other than one name", mod.short)
@@ -378,12 +721,21 @@ class Translator:
             elif e.ty == "L":
                 elems = []
                 for i, x in enumerate(e.static):
+                    if x.ty not in ("R", "V"):
+                        _err(s, "a nested list is stored in a variable", mod.short)
                     var = "v_%s_%d" % (name, i)
                     pre.append(("let", var, x.text))
                     elems.append(Ex(var, x.ty))
                 env2[name] = Ex(None, "L", static=elems)
             elif e.ty == "I":
                 _err(s, "an int that is not a literal is stored in a variable", mod.short)
+            elif e.ty == "S":
+                env2[name] = Ex(None, "S", static=e.static)
+            elif e.ty == "O":
+                _err(s, "an object is stored in a variable (aliasing)", mod.short)
+            elif e.ty == "LD":
+                pre.append(("let", "v_" + name, e.text))
+                env2[name] = Ex("v_" + name, "LD", static=e.static)
             else:
                 pre.append(("let", "v_" + name, e.text))
                 env2[name] = Ex("v_" + name, e.ty)  # (a variable is never a literal divisor: its guard is proved instead)
@@ -394,10 +746,18 @@ class Translator:
             if s.value is None:
                 _err(s, "bare return", mod.short)
             e = self.expr(s.value, env, fn)
+            if e.ty == "O":
+                # `return self` at the end of a method that updates its object: the value of the declared result attribute
+                if not (fn.result_attr and isinstance(s.value, ast.Name) and e.static["mutable"] and fn.result_attr in e.static["attrs"]):
+                    _err(s, "an object is returned", mod.short)
+                r = e.static["attrs"][fn.result_attr]
+                e = Ex(r.text, r.ty, e.pre)
             if e.ty == "I":
                 e = Ex(lit_R(e.static), "R", e.pre)
             if e.ty == "B" and e.is_static():
                 e = Ex("true" if e.static else "false", "B", e.pre)
+            if e.ty in ("N", "S"):
+                _err(s, "%s is returned" % KINDS[e.ty], mod.short)
             if e.ty == "L":
                 tys = {x.ty for x in e.static}
                 if len(tys) != 1 or not tys <= {"R", "V"}:
@@ -405,7 +765,7 @@ class Translator:
                 rty = ("L", len(e.static), tys.pop())
                 txt = "[%s]" % "; ".join(x.text for x in e.static)
             else:
-                rty = (e.ty,)
+                rty = (e.ty,) if e.ty != "LD" else ("LD", e.static)
                 txt = e.text
             if fn.rty is None:
                 fn.rty = rty
@@ -431,7 +791,56 @@ class Translator:
             return wrap(c.pre, body, ind)
         if isinstance(s, ast.Pass):
             return self.block(rest, env, fn, ind)
+        if isinstance(s, ast.For):
+            return self.filter_loop(s, rest, env, fn, ind)
         _err(s, "statement %s is outside the fragment" % type(s).__name__, mod.short)
+
+    def filter_loop(self, s, rest, env, fn, ind):
+        """ACC = set() ... `for X in LIST: if TEST: ACC.add(X)`: afterwards ACC is the sub-list of LIST selected by TEST
+        (a python set read as the list of its members in the order of LIST, as the models of the finders do)"""
+        mod = fn.mod
+        if s.orelse or getattr(s, "type_comment", None) or not isinstance(s.target, ast.Name):
+            _err(s, "`for` with else / a pattern target", mod.short)
+        x = s.target.id
+        if x in env or x in mod.funcs or x in mod.imports or x in mod.other:
+            _err(s, "the loop variable %r shadows another name" % x, mod.short)
+        it = self.expr(s.iter, env, fn)
+        if it.ty != "LD":
+            _err(s, "`for` over something that is not a declared list of objects", mod.short)
+        ok = (len(s.body) == 1 and isinstance(s.body[0], ast.If) and not s.body[0].orelse and len(s.body[0].body) == 1
+              and isinstance(s.body[0].body[0], ast.Expr) and isinstance(s.body[0].body[0].value, ast.Call))
+        if ok:
+            c = s.body[0].body[0].value
+            ok = (isinstance(c.func, ast.Attribute) and c.func.attr == "add" and isinstance(c.func.value, ast.Name)
+                  and len(c.args) == 1 and not c.keywords and isinstance(c.args[0], ast.Name) and c.args[0].id == x)
+        if not ok:
+            _err(s, "the body of `for` is not `if TEST: ACC.add(%s)`" % x, mod.short)
+        acc = c.func.value.id
+        if acc not in env or env[acc].ty != "S" or env[acc].static != "empty":
+            _err(s, "%r is not a set that is still empty" % acc, mod.short)
+        xv = "x_" + x
+        env_in = dict(env)
+        env_in[x] = obj(None, {it.static: Ex(xv, "V")}, False)
+        t = self.expr(s.body[0].test, env_in, fn)
+        if t.ty != "B" or t.is_static():
+            _err(s, "the test of the loop body is not a (non-constant) truth value", mod.short)
+        pad = " " * (ind + 4)
+        lam = "(fun %s : vec =>\n%s%s)" % (xv, pad, wrap(t.pre, "Some %s" % t.text, ind + 4))
+        var = "v_" + acc
+        env2 = dict(env)
+        env2[acc] = Ex(var, "LD", static=it.static)
+        pre = list(it.pre) + [("bind", var, "s_filter %s %s" % (lam, it.text))]
+        return wrap(pre, self.block(rest, env2, fn, ind), ind)
+
+    def obj_attr(self, n, env):
+        """`self.mesh.vertices` -> ("self", "mesh.vertices") when the head is an object of the environment, else (None, None)"""
+        parts = []
+        while isinstance(n, ast.Attribute):
+            parts.append(n.attr)
+            n = n.value
+        if isinstance(n, ast.Name) and n.id in env and env[n.id].ty == "O":
+            return n.id, ".".join(parts[::-1])
+        return None, None
 
     # ------------------------------------------------------------------------------------------ names
     def dotted(self, f, mod, env):
@@ -454,7 +863,7 @@ class Translator:
             return e.text
         if e.ty == "I":
             return lit_R(e.static)
-        _err(node, "a %s is used as a number" % {"V": "vector", "B": "truth value", "L": "list"}[e.ty], mod.short)
+        _err(node, "a %s is used as a number" % KINDS.get(e.ty, e.ty), mod.short)
 
     def nonzero_literal(self, e):
         if e.ty == "I":
@@ -465,6 +874,8 @@ class Translator:
         mod = fn.mod
         if isinstance(n, ast.Constant):
             v = n.value
+            if v is None:
+                return Ex(None, "N", static=True)
             if isinstance(v, bool):
                 return Ex(None, "B", static=v)
             if isinstance(v, int):
@@ -481,6 +892,10 @@ class Translator:
             if n.id in env:
                 e = env[n.id]
                 return Ex(e.text, e.ty, static=e.static)
+            if mod.imports.get(n.id) == self.constants_module + ".TOL":  # from ...constants import TOL
+                self.aliases_used.add((mod.name, n.id, mod.imports[n.id]))
+                self.uses_tol = True
+                return Ex("tol", "R")
             _err(n, "name %r is not a parameter or a local variable" % n.id, mod.short)
         if isinstance(n, ast.Attribute):
             d = self.dotted(n, mod, env)
@@ -489,6 +904,16 @@ class Translator:
             if d == self.constants_module + ".TOL":
                 self.uses_tol = True
                 return Ex("tol", "R")
+            base, key = self.obj_attr(n, env)
+            if base is not None:
+                a = env[base].static["attrs"].get(key)
+                if a is None:
+                    _err(n, "attribute `%s` is not a declared attribute of the object" % ast.unparse(n)[:80], mod.short)
+                return Ex(a.text, a.ty, static=a.static)
+            if d is None and n.attr == "T":
+                m = self.expr(n.value, env, fn)
+                if m.ty == "M":
+                    return Ex("(s_MT %s)" % m.text, "M", m.pre)
             _err(n, "attribute `%s`" % ast.unparse(n)[:80], mod.short)
         if isinstance(n, ast.UnaryOp):
             a = self.expr(n.operand, env, fn)
@@ -511,6 +936,15 @@ class Translator:
             _err(n, "unary operator %s on a %s" % (type(n.op).__name__, a.ty), mod.short)
         if isinstance(n, ast.BinOp):
             return self.binop(n, env, fn)
+        if isinstance(n, ast.Compare) and any(isinstance(op, (ast.Is, ast.IsNot)) for op in n.ops):
+            # x is None / x is not None: decided by the declared type of x (an argument declared a vector is not None)
+            if len(n.ops) != 1 or not (isinstance(n.comparators[0], ast.Constant) and n.comparators[0].value is None):
+                _err(n, "`is` / `is not` with something other than None", mod.short)
+            left = self.expr(n.left, env, fn)
+            if left.ty not in ("N", "R", "V", "M", "L", "LD", "O"):
+                _err(n, "`is None` of a %s" % KINDS.get(left.ty, left.ty), mod.short)
+            isnone = left.ty == "N"
+            return Ex(None, "B", left.pre, static=isnone if isinstance(n.ops[0], ast.Is) else not isnone)
         if isinstance(n, ast.Compare):
             left = self.expr(n.left, env, fn)
             pre = list(left.pre)
@@ -571,6 +1005,9 @@ class Translator:
             for x in elems:
                 if x.ty == "I":
                     x = Ex(lit_R(x.static), "R")
+                if x.ty == "L" and len(x.static) == 3 and all(y.ty == "R" for y in x.static):
+                    out.append(Ex(None, "L", static=x.static))  # a row of a 3 x 3 literal: only np.array(...) accepts it
+                    continue
                 if x.ty not in ("R", "V"):
                     _err(n, "list element is not a number / vector", mod.short)
                 out.append(Ex(x.text, x.ty))
@@ -584,8 +1021,8 @@ class Translator:
         pre = a.pre + b.pre
         op = type(n.op)
         for x in (a, b):
-            if x.ty in ("B", "L"):
-                _err(n, "arithmetic on a %s" % ("truth value" if x.ty == "B" else "list"), mod.short)
+            if x.ty not in ("I", "R", "V"):
+                _err(n, "arithmetic on a %s" % KINDS.get(x.ty, x.ty), mod.short)
         if op in (ast.Add, ast.Sub, ast.Mult):
             sym = {ast.Add: "+", ast.Sub: "-", ast.Mult: "*"}[op]
             if a.ty == "I" and b.ty == "I":
@@ -649,6 +1086,8 @@ class Translator:
             if not -k <= i < k:
                 _err(n, "index %d out of range for a list of %d" % (i, k), mod.short)
             e = x.static[i]
+            if e.ty not in ("R", "V"):
+                _err(n, "subscript of a nested list", mod.short)
             return Ex(e.text, e.ty, x.pre)
         if x.ty == "V" and not isinstance(n.slice, ast.Slice):
             i = const(n.slice, None)
@@ -663,8 +1102,17 @@ class Translator:
         # a method of a value: a.dot(b)
         if isinstance(f, ast.Attribute) and self.dotted(f, mod, env) is None:
             recv = self.expr(f.value, env, fn)
+            if recv.ty == "O" and isinstance(f.value, ast.Name):
+                # self.method(...): the method an instance of exactly the declared class would call
+                if recv.static["cls"] is None:
+                    _err(n, "method call on an element of a list", mod.short)
+                m0, c0 = recv.static["cls"]
+                mod2, cls2, node2 = self.find_method(self.modules[m0], c0, f.attr, n)
+                return self.call_user(mod2, "%s.%s" % (cls2, f.attr), n, env, fn, node=node2, selfarg=recv)
             if f.attr == "dot" and recv.ty == "V" and len(n.args) == 1 and not n.keywords:
                 b = self.expr(n.args[0], env, fn)
+                if b.ty == "M":
+                    return Ex("(s_vM %s %s)" % (recv.text, b.text), "V", recv.pre + b.pre)
                 if b.ty != "V":
                     _err(n, ".dot of a vector with a %s" % b.ty, mod.short)
                 return Ex("(dot %s %s)" % (recv.text, b.text), "R", recv.pre + b.pre)
@@ -673,10 +1121,14 @@ class Translator:
             if f.id in env:
                 _err(n, "call of the variable %r" % f.id, mod.short)
             if f.id in mod.funcs:
+                if mod.name + "." + f.id in self.opaque:
+                    return self.prim(mod.name + "." + f.id, n, env, fn)
                 return self.call_user(mod, f.id, n, env, fn)
             if f.id in mod.imports:
                 d = mod.imports[f.id]
                 self.aliases_used.add((mod.name, f.id, d))
+                if d in self.opaque:
+                    return self.prim(d, n, env, fn)
                 m2, _, name2 = d.rpartition(".")
                 if m2 in self.modules and name2 in self.modules[m2].funcs:
                     return self.call_user(self.modules[m2], name2, n, env, fn)
@@ -685,10 +1137,14 @@ class Translator:
                 _err(n, "call of %r, which is not a plain function of %s" % (f.id, mod.short), mod.short)
             if f.id in ("abs", "float", "max", "min"):
                 return self.prim("builtins." + f.id, n, env, fn)
+            if f.id == "set" and not n.args and not n.keywords:
+                return Ex(None, "S", static="empty")
             _err(n, "call of %r" % f.id, mod.short)
         d = self.dotted(f, mod, env)
         if d is None:
             _err(n, "call `%s`" % ast.unparse(f)[:80], mod.short)
+        if d in self.opaque:
+            return self.prim(d, n, env, fn)
         m2, _, name2 = d.rpartition(".")
         if m2 in self.modules:
             if name2 not in self.modules[m2].funcs:
@@ -696,10 +1152,16 @@ class Translator:
             return self.call_user(self.modules[m2], name2, n, env, fn)
         return self.prim(d, n, env, fn)
 
-    def call_user(self, mod2, fname, n, env, fn):
+    def call_user(self, mod2, fname, n, env, fn, node=None, selfarg=None):
         mod = fn.mod
-        node = mod2.funcs[fname]
+        if node is None:
+            node = mod2.funcs[fname]
         names, defaults = self.check_signature(mod2, node)
+        selfname = None
+        if selfarg is not None:
+            if not names:
+                _err(n, "%s has no self parameter" % fname, mod.short)
+            selfname, names = names[0], names[1:]
         if len(n.args) > len(names):
             _err(n, "too many arguments for %s" % fname, mod.short)
         for a in n.args:
@@ -723,18 +1185,21 @@ class Translator:
                 a = self.expr(defaults[p], {}, fn)
             else:
                 _err(n, "argument %r of %s is missing" % (p, fname), mod.short)
-            if a.ty == "L":
-                _err(n, "a list is passed to %s" % fname, mod.short)
-            args.append(Ex(a.text, a.ty, static=a.static if a.ty in ("I", "B") else None))
+            if a.ty in ("L", "S", "O"):
+                _err(n, "a %s is passed to %s" % (KINDS[a.ty], fname), mod.short)
+            args.append(Ex(a.text, a.ty, static=a.static if a.ty in ("I", "B", "N", "LD") else None))
+        if selfarg is not None:
+            # the callee sees the object as it is now; it may read, not assign, its attributes
+            args.insert(0, obj(selfarg.static["cls"], selfarg.static["attrs"], False))
         # an int literal passed where the callee computes with it as a number stays static (the callee is specialised)
-        coq, rty, dyn = self.function(mod2, fname, args, n)
+        coq, rty, dyn = self.function(mod2, fname, args, n, node=node)
         var = fn.new()
         calltext = " ".join([coq, "tol"] + [a.text for a in dyn])
         pre.append(("bind", var, calltext))
         if rty[0] == "L":
             dflt = "vzero" if rty[2] == "V" else "0"
             return Ex(None, "L", pre, static=[Ex("(nth %d %s %s)" % (i, var, dflt), rty[2]) for i in range(rty[1])])
-        return Ex(var, rty[0], pre)
+        return Ex(var, rty[0], pre, static=rty[1] if rty[0] == "LD" else None)
 
     def prim(self, d, n, env, fn):
         mod = fn.mod
@@ -748,6 +1213,35 @@ class Translator:
                 _err(n, "starred argument", mod.short)
         args = [self.expr(x, env, fn) for x in n.args]
         pre = [p for x in args for p in x.pre]
+        if d in self.opaque:
+            # a value the translation does not look into (np.random.random(3)): an extra input of the entry function
+            if kws or self.stack[1:] or fn.key not in self.declared:
+                _err(n, "the opaque call %s outside an entry function / with keyword arguments" % d, mod.short)
+            spec = self.opaque[d]
+            if isinstance(spec, tuple) and spec[0] == "fun":
+                # an uninterpreted TOTAL function of the values of its arguments (f.rotate: scipy.linalg.expm inside)
+                _k, atys, rty = spec
+                if len(args) != len(atys):
+                    _err(n, "the opaque function %s is called with %d arguments, declared with %d" % (d, len(args), len(atys)), mod.short)
+                texts = []
+                for a, t in zip(args, atys):
+                    if TYNAMES[t] == "R":
+                        texts.append(self.as_R(a, n, mod))
+                    elif a.ty == TYNAMES[t]:
+                        texts.append(a.text)
+                    else:
+                        _err(n, "argument of the opaque function %s: a %s where a %s is declared" % (d, KINDS.get(a.ty, a.ty), t), mod.short)
+                var = "o_" + d.split(".")[-1]
+                ctype = " -> ".join(COQTY[TYNAMES[t]] for t in list(atys) + [rty])
+                if (var, ctype) not in fn.extra:
+                    fn.extra.append((var, ctype))
+                return Ex("(%s %s)" % (var, " ".join(texts)), TYNAMES[rty], pre)
+            if any(not (a.ty == "I") for a in args):
+                _err(n, "the opaque call %s with other than int literal arguments" % d, mod.short)
+            t = TYNAMES[spec]
+            var = "o_%s_%d" % (d.split(".")[-1], len(fn.extra) + 1)
+            fn.extra.append((var, COQTY[t]))
+            return Ex(var, t)
 
         def no_kw():
             if kws:
@@ -758,26 +1252,35 @@ class Translator:
             if len(args) != 1 or args[0].ty not in ("R", "I"):
                 _err(n, "%s is in the fragment for one scalar argument only" % d, mod.short)
             return self.as_R(args[0], n, mod)
-        if d in ("numpy.asarray", "numpy.array"):
+        if d in ("numpy.asarray", "numpy.array", "numpy.copy"):
             for k, v in kws.items():
                 if k != "dtype" or self.dtype_name(v, mod, env) not in (self.constants_module + ".DTYPE", "float", "numpy.float64"):
                     _err(n, "%s(..., %s=%s)" % (d, k, ast.unparse(v)), mod.short)
             if len(args) != 1:
                 _err(n, "%s with %d positional arguments" % (d, len(args)), mod.short)
             x = args[0]
-            if x.ty in ("V", "R"):
+            if x.ty in ("V", "R", "M"):
                 return x
             if x.ty == "I":
                 return Ex(lit_R(x.static), "R", x.pre)
             if x.ty == "L":
                 if len(x.static) == 3 and all(e.ty == "R" for e in x.static) and isinstance(n.args[0], (ast.List, ast.Tuple)):
                     return Ex("(%s, %s, %s)" % tuple(e.text for e in x.static), "V", x.pre)
+                if len(x.static) == 3 and all(e.ty == "L" for e in x.static) and isinstance(n.args[0], (ast.List, ast.Tuple)):
+                    rows = ["(%s, %s, %s)" % tuple(y.text for y in e.static) for e in x.static]  # rows of 3 reals (checked where built)
+                    return Ex("(%s, %s, %s)" % tuple(rows), "M", x.pre)
+                if any(e.ty == "L" for e in x.static):
+                    _err(n, "%s of a nested list that is not a 3 x 3 literal" % d, mod.short)
                 return x
             _err(n, "%s of a truth value" % d, mod.short)
         if d in ("numpy.dot", "numpy.cross"):
             no_kw()
+            if d == "numpy.dot" and len(args) == 2 and (args[0].ty, args[1].ty) in (("V", "M"), ("M", "V")):
+                if args[0].ty == "V":
+                    return Ex("(s_vM %s %s)" % (args[0].text, args[1].text), "V", pre)
+                return Ex("(s_Mv %s %s)" % (args[0].text, args[1].text), "V", pre)
             if len(args) != 2 or args[0].ty != "V" or args[1].ty != "V":
-                _err(n, "%s is in the fragment for two 3-vectors only" % d, mod.short)
+                _err(n, "%s is in the fragment for two 3-vectors (np.dot: also a 3-vector and a 3 x 3 array) only" % d, mod.short)
             name = d.split(".")[1]
             return Ex("(%s %s %s)" % (name, args[0].text, args[1].text), "R" if name == "dot" else "V", pre)
         if d in ("numpy.linalg.norm", "scipy.linalg.norm"):
@@ -850,13 +1353,23 @@ class Translator:
     def tie_to_runtime(self):
         """the functions the library would call ARE the parsed ones, and the aliases name the assumed modules"""
         for key, (coq, _rty, _dyn, fn) in self.done.items():
-            m = importlib.import_module(fn.mod.name)
-            obj = getattr(m, fn.node.name, None)
-            code = getattr(obj, "__code__", None)
+            mname, qual, line = fn.rt
+            m = importlib.import_module(mname)
+            ob = m
+            for part in qual.split("."):
+                ob = ob.__dict__.get(part) if isinstance(ob, type) else getattr(ob, part, None)  # a class: its own body only
+                if ob is None:
+                    break
+            code = getattr(ob, "__code__", None)
             if code is None or os.path.realpath(code.co_filename) != os.path.realpath(fn.mod.path) \
-                    or code.co_firstlineno != fn.node.lineno or obj.__name__ != fn.node.name:
+                    or code.co_firstlineno != line or ob.__name__ != qual.split(".")[-1]:
                 raise GenError("%s.%s at run time is not the function parsed at %s line %d (wrapped / replaced?)" % (
-                    fn.mod.name, fn.node.name, fn.mod.path, fn.node.lineno))
+                    mname, qual, fn.mod.path, line))
+        for (mname, cls, bmname, bcls) in sorted(self.bases_used):
+            c = getattr(importlib.import_module(mname), cls, None)
+            b = getattr(importlib.import_module(bmname), bcls, None)
+            if not isinstance(c, type) or b is None or c.__bases__ != (b,):
+                raise GenError("at run time the base of %s.%s is not %s.%s" % (mname, cls, bmname, bcls))
         for (mname, alias, target) in sorted(self.aliases_used):
             m = importlib.import_module(mname)
             obj = getattr(m, alias, None)
